@@ -117,8 +117,6 @@ func init() {
 		"(*sync.RWMutex).RLock":   icLock(true, true),
 		"(*sync.RWMutex).RUnlock": icLock(true, false),
 
-		"(*bufio.Reader).Read": icReaderRead,
-		"bufio.NewReader":      icBufioNewReader,
 		"(*os.File).Read":      icFileRead,
 		"(*os.File).Write":     icFileWrite,
 		"(*os.File).Close":     noopNilErr,
@@ -759,19 +757,41 @@ func icTimeNow(fr *frame, args []value) value {
 	name := fmt.Sprintf("now#%d", m.nowCount)
 	t := st.Var(name, KBV, 64)
 	m.inputs[name] = t
-	// non-decreasing, inside [2000-01-01, 2100-01-01)
+	// inside [2000-01-01, 2100-01-01)
 	lo := BV(uint64(946684800)*1e9, 64)
 	hi := BV(uint64(4102444800)*1e9, 64)
 	m.addPC(st.And(st.ULe(lo, t), st.ULt(t, hi)))
 	if m.lastNow != nil {
-		m.addPC(st.ULe(m.lastNow, t))
+		if m.clockJitter > 0 {
+			// realistic clock (verifClockModel): the time since the previous
+			// reading is what was slept or declared to pass, plus a bounded
+			// jitter
+			base := m.lastNow
+			if m.slept != nil {
+				base = st.Add(base, m.slept)
+			}
+			m.addPC(st.And(st.ULe(base, t), st.ULe(t, st.Add(base, BV(m.clockJitter, 64)))))
+		} else {
+			// non-decreasing, otherwise arbitrary
+			m.addPC(st.ULe(m.lastNow, t))
+		}
 	}
+	m.slept = nil
 	m.lastNow = t
 	return timeVal{t}
 }
 
+func (m *Machine) clockAdvance(d *Term) {
+	if m.slept == nil {
+		m.slept = d
+	} else {
+		m.slept = m.st().Add(m.slept, d)
+	}
+}
+
 func icTimeSleep(fr *frame, args []value) value {
 	fr.m.sleeps++
+	fr.m.clockAdvance(args[0].(*Term))
 	fr.m.sched.yield(fr.g)
 	return nil
 }
